@@ -192,6 +192,21 @@ def _b_events(args):
             rhs = Xr + 2.0 * Q.qslst_restore_fft(B2.copy(), psf.copy(), lam)
             ev.append({"tid": tid, "op": "units", "clause": "LinearInB",
                        "units": units(float(np.max(np.abs(lhs - rhs))), float(np.max(np.abs(lhs)) + 1e-300) * max(1.0, 1.0 / lam), N)})
+            # channel independence, literally: another image that differs in ONE channel only (rescaled by 2^40, a missing-data
+            # marker, a saturated sample) - the other three channels of the blur and of the restoration do not change by a bit
+            c0 = int(rng.integers(0, 4))
+            others = [c for c in range(4) if c != c0]
+            for how in ("scaled 2^40", "nan", "inf"):
+                X2, N2 = Xq.copy(), noisy.copy()
+                if how == "scaled 2^40":
+                    X2[..., c0] *= 2.0 ** 40
+                    N2[..., c0] *= 2.0 ** 40
+                else:
+                    X2[0, 0, c0] = N2[0, 0, c0] = np.nan if how == "nan" else np.inf
+                Bx = Q.apply_blur_fft(X2, psf.copy())
+                Rx = Q.qslst_restore_fft(N2, psf.copy(), lam)
+                same = bool(np.array_equal(np.asarray(Bx)[..., others], np.asarray(B)[..., others]) and np.array_equal(np.asarray(Rx)[..., others], np.asarray(Xr)[..., others]))
+                ev.append({"tid": tid, "op": "flag", "clause": "ChannelsIndependentAndShiftEquivariant", "ok": same, "changed_channel": c0, "change": how})
             Xm = Q.qslst_restore_matrix(f_layout(noisy), A.copy(), lam)
             ev.append({"tid": tid, "op": "units", "clause": "MatrixFormEqualsFftForm",
                        "units": units(float(np.max(np.abs(Xm - Xr))), float(np.max(np.abs(Xr)) + 1e-300) * max(1.0, 1.0 / lam) * max(1.0, np.max(np.abs(T))), N)})
